@@ -10,4 +10,4 @@ Extraction "extract/numfn_model.ml"
   NumFn.impl_bitnot NumFn.spec_bitnot NumFn.impl_shl NumFn.spec_shl_exec NumFn.impl_shr_src NumFn.spec_shr_exec
   NumFn.impl_round_src NumFn.spec_round
   NumFn.impl_int_fn NumFn.spec_int_fn NumFn.impl_dec_fn NumFn.spec_dec_fn NumFn.fres_eqb
-  NumFn.spec_cmp Arith.in_range.
+  NumFn.spec_cmp NumFn.impl_cmp_mixed NumFn.spec_cmp_mixed NumFn.cmp_results NumFn.cop_null Arith.in_range.
